@@ -21,7 +21,7 @@ ASSUMPTIONS = ["expected leaves are the (name, value) pairs the harness generate
                "parses that exceed 300000 loop steps are dropped as inconclusive (exponential "
                "backtracking is legal)"]
 TIERS = {
-    "quick": {"shards": 4, "cases": 1500, "timeout": 600},
+    "quick": {"shards": 4, "cases": 1500, "timeout": 300},
     "thorough": {"shards": 16, "cases": 12000, "timeout": 3000},
 }
 FLOORS = {"quick": {"distinct_nontrivial": 700, "trees_validated": 20000, "rollbacks": 10000,
